@@ -115,6 +115,7 @@ from .asttypes import (
     Store,
     Sub,
     Tuple,
+    TypeAlias,
     TypeIgnore,
     UAdd,
     USub,
@@ -4984,6 +4985,9 @@ class FST:
 
         if parent := self.parent:
             if ast_cls is Constant and parent.a.__class__ in ASTS_LEAF_FTSTR:
+                return False
+
+            if ast_cls is Name and parent.a.__class__ in (TypeAlias, NamedExpr) and self.pfield.name in ('name', 'target'):  # `type (T) = ...` and `((x) := ...)` are syntax errors
                 return False
 
             while True:
